@@ -283,21 +283,23 @@ def hasNone (kw : List (List Nat × Val)) : Bool := kw.any fun kv => isNone kv.2
 
 def hasReserved (kw : List (List Nat × Val)) : Bool := kw.any fun kv => reservedPrefix.isPrefixOf kv.1
 
-def fl (q : Rat) : Val := .leaf (.float (.fin q))
-
 /-- the entries added when `add_time` -/
-def timeEntries (c : Cfg) (st : St) (perf : Rat) : List (List Nat × Val) :=
+def timeEntries (c : Cfg) (st : St) (perf : Rat) : List (List Nat × Leaf) :=
   if c.addTime then
-    (c.kTime, fl (perf - st.start)) ::
+    (c.kTime, .float (.fin (perf - st.start))) ::
       (match c.dollarCost with
-       | some d => [(c.kCost, fl ((perf - st.start) * d))]
+       | some d => [(c.kCost, .float (.fin ((perf - st.start) * d)))]
        | none => [])
   else []
 
-/-- keyword dictionary after `__call__` added its own entries (insertion order) -/
+/-- the entries `__call__` adds (insertion order): time stamp, [time, [cost]], counter -/
+def extras (c : Cfg) (st : St) (now perf : Rat) (i : Nat) : List (List Nat × Leaf) :=
+  (c.kTimestamp, .float (.fin now)) :: (timeEntries c st perf ++ [(c.kIter, .int i)])
+
+/-- keyword dictionary after `__call__` added its own entries -/
 def augment (c : Cfg) (st : St) (kw : List (List Nat × Val)) (now perf : Rat) (i : Nat) :
     List (List Nat × Val) :=
-  kw ++ (c.kTimestamp, fl now) :: (timeEntries c st perf ++ [(c.kIter, .leaf (.int i))])
+  kw ++ (extras c st now perf i).map fun e => (e.1, Val.leaf e.2)
 
 /-- `_report_logger` / `_serialize_report_dict` with the counter already advanced -/
 def emit (c : Cfg) (enc : PDict → List Char) (st : St) (i : Nat) (full : List (List Nat × Val)) :
@@ -340,5 +342,86 @@ def St.run (c : Cfg) (enc : PDict → List Char) (st : St) (ops : List Op) : St 
 def pget (k : List Nat) : PDict → Option Plain
   | [] => none
   | (k', v) :: rest => if k = k' then some v else pget k rest
+
+/-! ### vocabulary of the property statements -/
+
+mutual
+/-- does the value contain, anywhere, something `json.dumps(·, default=np_encoder)` rejects -/
+def Val.bad : Val → Bool
+  | .leaf _ => false
+  | .np item => item.bad
+  | .other => true
+  | .list xs => badList xs
+  | .dict kvs => badKvs kvs
+
+def badList : List Val → Bool
+  | [] => false
+  | x :: xs => x.bad || badList xs
+
+def badKvs : List (DKey × Val) → Bool
+  | [] => false
+  | (k, v) :: rest => k.text.isNone || v.bad || badKvs rest
+end
+
+/-- the reserved keys really are reserved, and those that are looked up are different -/
+structure CfgOK (c : Cfg) : Prop where
+  ts : reservedPrefix <+: c.kTimestamp
+  time : reservedPrefix <+: c.kTime
+  iter : reservedPrefix <+: c.kIter
+  iter_ts : c.kIter ≠ c.kTimestamp
+  iter_time : c.kIter ≠ c.kTime
+  iter_cost : c.kIter ≠ c.kCost
+  time_ts : c.kTime ≠ c.kTimestamp
+
+/-- `d["st_worker_iter"]` of a delivered dictionary -/
+def iterOf (c : Cfg) (d : PDict) : Option Int :=
+  match pget c.kIter d with
+  | some (.leaf (.int i)) => some i
+  | _ => none
+
+/-- `d["st_worker_timestamp"]` -/
+def tsOf (c : Cfg) (d : PDict) : Option Rat :=
+  match pget c.kTimestamp d with
+  | some (.leaf (.float (.fin q))) => some q
+  | _ => none
+
+/-- `d["st_worker_time"]` -/
+def timeOf (c : Cfg) (d : PDict) : Option Rat :=
+  match pget c.kTime d with
+  | some (.leaf (.float (.fin q))) => some q
+  | _ => none
+
+/-- readings of `time()` at the report calls of a history, in order -/
+def nows : List Op → List Rat
+  | [] => []
+  | .noise _ :: ops => nows ops
+  | .report _ now _ :: ops => now :: nows ops
+
+/-- readings of `perf_counter()` at the report calls -/
+def perfs : List Op → List Rat
+  | [] => []
+  | .noise _ :: ops => perfs ops
+  | .report _ _ perf :: ops => perf :: perfs ops
+
+/-- no report of the history fails in `_serialize_report_dict` (i.e. after the counter was
+advanced) -/
+def serialOK (c : Cfg) (enc : PDict → List Char) : St → List Op → Bool
+  | _, [] => true
+  | st, .noise n :: ops => serialOK c enc (st.noise n) ops
+  | st, .report kw now perf :: ops =>
+    ((st.call c enc kw now perf).2 != some .typeError) && ((st.call c enc kw now perf).2 != some .tooLarge)
+      && serialOK c enc (st.call c enc kw now perf).1 ops
+
+/-- the other output of the script never completes an occurrence of the marker: whenever
+noise is written, everything written since the last report line is still marker-free -/
+def cleanRun (c : Cfg) (enc : PDict → List Char) : St → List Op → Prop
+  | _, [] => True
+  | st, .noise n :: ops => ¬ marker c.tag <:+: st.cur ++ n ∧ cleanRun c enc (st.noise n) ops
+  | st, .report kw now perf :: ops => cleanRun c enc (st.call c enc kw now perf).1 ops
+
+/-- the two diagnostics of `_serialize_report_dict` are harmless noise for this tag -/
+def diagOKB (tag : List Char) : Bool :=
+  !((marker tag).contains 'T') && !((marker tag).contains '\n') &&
+    decide (¬ marker tag <:+: diagType.tail) && decide (¬ marker tag <:+: diagSize.tail)
 
 end SyneTune.Report
